@@ -127,24 +127,50 @@ def concretise(beh, seed):
     kind = beh["kind"]
     hours = rnd.choice([1, 24, 360, 2160]) if kind == "time" else 2160
     c = {"hours": hours, "seed": seed, "open": False, "two_indexes": rnd.random() < 0.5 and not beh.get("pq_scenario"), "segs": []}
+    # equalities of the model are kept: in "tied" mode equal lo / hi classes of different segments become IDENTICAL
+    # milliseconds (several segments ending on the same ms, an expired and a surviving segment starting on the same ms);
+    # in "spread" mode every segment draws its own offsets.  A record with multiplicity m > 1 always means m segments
+    # with identical [lo, hi] in one index.
+    tied = rnd.random() < 0.6 or any(s.get("m", 1) > 1 for s in beh["segs"])
+    c["tied"] = tied
+    if tied:
+        c["two_indexes"] = c["two_indexes"] and rnd.random() < 0.3
+
+    def off(cls):
+        if cls < 0:
+            return -rnd.choice([1, 2, 700, 1001, 59_000, 3_600_001])
+        return MARGIN_MS + rnd.choice([0, 1, 999, 60_000, 7_200_000])
+    cls_off = {}
+    if kind == "time":
+        for cls in sorted(set([s["lo"] for s in beh["segs"]] + [s["hi"] for s in beh["segs"]])):
+            cls_off[cls] = off(cls)
+    same_delta = rnd.choice([0, 1, 400])
+    rank_jit = {}
     for i, s in enumerate(beh["segs"]):
         if kind == "time":
             # offsets (ms) relative to the horizon measured when the scenario is built
-            def off(cls):
-                if cls < 0:
-                    return -rnd.choice([1, 2, 700, 1001, 59_000, 3_600_001])
-                return MARGIN_MS + rnd.choice([0, 1, 999, 60_000, 7_200_000])
-            lo, hi = off(s["lo"]), off(s["hi"])
-            if s["lo"] == s["hi"]:
-                lo = hi - rnd.choice([0, 1, 400])
+            if tied:
+                lo, hi = cls_off[s["lo"]], cls_off[s["hi"]]
+                if s["lo"] == s["hi"]:
+                    lo = hi - same_delta
+            else:
+                lo, hi = off(s["lo"]), off(s["hi"])
+                if s["lo"] == s["hi"]:
+                    lo = hi - rnd.choice([0, 1, 400])
             if lo > hi:
                 lo = hi
         else:
-            # only the order matters: rank r -> now - 30 d + r hours (all far from any horizon)
-            hi = s["hi"] * HOUR_MS + rnd.randrange(0, 1000) * 1000
-            lo = hi - rnd.choice([0, 1000, 5000])
+            # only the order matters: rank r -> now - 30 d + r hours (all far from any horizon); equal ranks = equal times
+            if tied:
+                if s["hi"] not in rank_jit:
+                    rank_jit[s["hi"]] = (rnd.randrange(0, 1000) * 1000, rnd.choice([0, 1000, 5000]))
+                j, d = rank_jit[s["hi"]]
+            else:
+                j, d = rnd.randrange(0, 1000) * 1000, rnd.choice([0, 1000, 5000])
+            hi = s["hi"] * HOUR_MS + j
+            lo = hi - d
         c["segs"].append({"lo_off": lo, "hi_off": hi, "extra_cols": 4 * (s["w"] - 1), "pad": 300 * (s["w"] - 1),
-                          "npts": s["w"]})
+                          "npts": s["w"], "m": s.get("m", 1)})
     if kind == "time":
         c["open"] = rnd.random() < 0.4
     elif kind == "volume":
@@ -257,7 +283,7 @@ class Scenario:
             t = self.hz + MARGIN_MS + 5000
             bulk(self.dr, "c14a", [{"timestamp": t, "seg_marker": "base", "k": 1, "color": "green"}])
             self.dr.ok("rotate")
-            self.base_events.append(("base", 1))
+            self.base_events.append(("base", 1, 0))
             times.append(t)
             self.stop()
             self.start(False)
@@ -280,13 +306,18 @@ class Scenario:
                     inpq = i in beh["pq0"]
                     ev1["color"] = "red" if inpq else "blue"
                     ev2["color"] = "red"
-                before = set(segmeta_keys(self.info))
-                bulk(self.dr, self.index_of(i), [ev1, ev2])
-                self.dr.ok("rotate")
-                new = [k for k in segmeta_keys(self.info) if k not in before]
-                if len(new) != 1:
-                    raise vlib.Infra("building segment %d: expected one new segmeta.json entry, got %s" % (i, new))
-                self.seg[i] = {"kind": "log", "key": new[0], "dir": os.path.dirname(new[0]), "events": [(marker, 1), (marker, 2)]}
+                members = []
+                for r in range(cs.get("m", 1)):
+                    e1, e2 = dict(ev1, r=r), dict(ev2, r=r)
+                    before = set(segmeta_keys(self.info))
+                    bulk(self.dr, self.index_of(i), [e1, e2])
+                    self.dr.ok("rotate")
+                    new = [k for k in segmeta_keys(self.info) if k not in before]
+                    if len(new) != 1:
+                        raise vlib.Infra("building segment %d: expected one new segmeta.json entry, got %s" % (i, new))
+                    members.append({"key": new[0], "dir": os.path.dirname(new[0]), "events": [(marker, 1, r), (marker, 2, r)]})
+                self.seg[i] = {"kind": "log", "members": members, "key": members[0]["key"], "dir": members[0]["dir"],
+                               "events": [e for mb in members for e in mb["events"]]}
                 times += [lo, hi]
             else:
                 lo, hi = hs + cs["lo_off"] // 1000, hs + cs["hi_off"] // 1000
@@ -309,7 +340,7 @@ class Scenario:
                 if len(new) != 1:
                     raise vlib.Infra("building metrics segment %d: expected one new metricmeta.json entry, got %s" % (i, new))
                 self.seg[i] = {"kind": "met", "key": new[0], "dir": os.path.dirname(new[0]), "series": marker,
-                               "pts": sorted(t for t, _ in pts)}
+                               "members": [{"key": new[0], "dir": os.path.dirname(new[0])}], "pts": sorted(t for t, _ in pts)}
                 times += [lo * 1000, hi * 1000]
         if conc["open"]:
             # open (unrotated) log data, old and new events: not subject to any pass, must stay searchable
@@ -320,7 +351,7 @@ class Scenario:
                 t1, t2 = self.hz + 20 * HOUR_MS, self.hz + 21 * HOUR_MS
             bulk(self.dr, "c14a", [{"timestamp": t1, "seg_marker": "open", "k": 1}, {"timestamp": t2, "seg_marker": "open", "k": 2}])
             self.dr.ok("flush")
-            self.open_events = [("open", 1), ("open", 2)]
+            self.open_events = [("open", 1, 0), ("open", 2, 0)]
             times += [t1, t2]
         self.t_lo, self.t_hi = min(times), max(times)
         # rotated metrics segments enter the in-memory metadata through the 5 s refresh loop: wait for it
@@ -377,7 +408,9 @@ class Scenario:
             o["search_err"] = r["qerr"]
             recs = set()
         else:
-            recs = set((x.get("seg_marker"), x.get("k")) for x in ((r.get("hits") or {}).get("records") or []))
+            recs = set((x.get("seg_marker"), x.get("k"), x.get("r") or 0) for x in ((r.get("hits") or {}).get("records") or []))
+            if r.get("errors"):
+                o["search_errors_field"] = r.get("errors")
         r2 = self.query("* | stats count by seg_marker")
         counts = {}
         if "qerr" in r2:
@@ -393,24 +426,45 @@ class Scenario:
             mq = {"series": {}}
         sm = segmeta_keys(self.info)
         mm = mmeta_dirs(self.info)
-        mem = set(self.dr.ok("ret_mem"))
+        logkeys = [mb["key"] for v in self.seg.values() if v["kind"] == "log" for mb in v["members"]]
+        pk = self.dr.ok("ret_pick", keys=logkeys, tables=["c14a", "c14b"])
+        mem, rev, picked = set(pk["all"]), set(pk["rev"]), set(pk["picked"])
         pql = self.pq_listed() if self.with_pq else set()
         o["segmeta_dups"] = len(sm) != len(set(sm))
         o["tmp_files"] = [p for p in (self.info["segmeta"] + ".tmp", self.info["metricsmeta"] + ".tmp") if os.path.exists(p)]
+        # keys the time-filtered selection returns although nobody listed them (must be data of this scenario only)
+        o["picked_unlisted"] = sorted(k for k in picked if k not in sm)
         segs = {}
         for i, v in self.seg.items():
             if v["kind"] == "log":
-                found = [e for e in v["events"] if e in recs]
                 cnt = counts.get("s%d" % i) or 0
-                segs[i] = {"files": os.path.isdir(v["dir"]), "listed": v["key"] in sm, "mem": v["key"] in mem,
-                           "found": len(found), "count": cnt, "of": len(v["events"]), "pq": v["key"] in pql}
+                mst, agg = [], {"files": 0, "listed": 0, "mem": 0, "rev": 0, "picked": 0, "pq": 0, "found": 0}
+                for mb in v["members"]:
+                    f = {"files": os.path.isdir(mb["dir"]), "listed": mb["key"] in sm, "mem": mb["key"] in mem,
+                         "rev": mb["key"] in rev, "picked": mb["key"] in picked, "pq": mb["key"] in pql,
+                         "found": len([e for e in mb["events"] if e in recs])}
+                    for k2 in agg:
+                        agg[k2] += int(f[k2])
+                    present = f["files"] and f["listed"] and f["mem"] and f["rev"] and f["picked"] and f["found"] == len(mb["events"])
+                    absent = not (f["files"] or f["listed"] or f["mem"] or f["rev"] or f["picked"] or f["pq"] or f["found"])
+                    mst.append("alive" if present else "gone" if absent else "mixed")
+                n = len(v["members"])
+                # group view: a flag is True if it holds for ANY member; n_* tell for how many
+                segs[i] = {"files": agg["files"] > 0, "listed": agg["listed"] > 0, "mem": agg["mem"] > 0, "rev": agg["rev"] > 0,
+                           "picked": agg["picked"] > 0, "pq": agg["pq"] > 0, "found": agg["found"], "count": cnt, "of": len(v["events"]),
+                           "m": n, "members_alive": mst.count("alive"), "members_gone": mst.count("gone"),
+                           "n": {k2: agg[k2] for k2 in ("files", "listed", "mem", "rev", "picked")}}
             else:
                 got = mq["series"].get(v["series"], [])
                 segs[i] = {"files": os.path.isdir(v["dir"]), "listed": v["key"] in mm,
                            "found": len([t for t in v["pts"] if t in got]), "of": len(v["pts"]), "extra": len([t for t in got if t not in v["pts"]]),
-                           "pq": False}
+                           "pq": False, "m": 1}
                 segs[i]["mem"] = segs[i]["found"] > 0
+                segs[i]["rev"] = segs[i]["picked"] = segs[i]["mem"]
                 segs[i]["count"] = segs[i]["found"]
+                ok = segs[i]["files"] and segs[i]["listed"] and segs[i]["found"] == segs[i]["of"]
+                no = not (segs[i]["files"] or segs[i]["listed"] or segs[i]["found"])
+                segs[i]["members_alive"], segs[i]["members_gone"] = int(ok), int(no)
         o["segs"] = segs
         o["open_found"] = len([e for e in self.open_events + self.base_events if e in recs])
         o["open_of"] = len(self.open_events + self.base_events)
@@ -457,9 +511,9 @@ class Scenario:
     def step(self, st):
         a = st["a"]
         if a in ("files", "mem"):
-            self.dr.ok("ret_step", step=a, segkeys=[self.seg[st["s"]]["key"]])
+            self.dr.ok("ret_step", step=a, segkeys=[mb["key"] for mb in self.seg[st["s"]]["members"]])
         elif a in ("pqmeta", "segmeta"):
-            self.dr.ok("ret_step", step=a, segkeys=[self.seg[i]["key"] for i in self.cur_vL])
+            self.dr.ok("ret_step", step=a, segkeys=[mb["key"] for i in self.cur_vL for mb in self.seg[i]["members"]])
         elif a == "m_mem":
             r = self.dr.ok("ret_mstep", step="mem", dirs=[self.seg[st["s"]]["key"]])
             if r.get("errs"):
@@ -581,7 +635,7 @@ def run_behaviour(binary, beh, conc, allow_mount=True, victims=None):
         sc.setup_dir()
         sc.build()
         pre_obs = sc.observe()
-        bad = [i for i, s in pre_obs["segs"].items() if not (s["files"] and s["listed"] and s["found"] == s["of"])]
+        bad = [i for i, s in pre_obs["segs"].items() if not classify(s)[0]]
         if bad or pre_obs["open_found"] != pre_obs["open_of"]:
             raise vlib.Infra("scenario not fully searchable before the pass (not a retention verdict): %s" % json.dumps(pre_obs)[:600])
         if sc.kind == "inode":
@@ -628,15 +682,18 @@ def run_behaviour(binary, beh, conc, allow_mount=True, victims=None):
 
 
 def classify(s):
-    """(alive, gone) of one observed segment: alive = directory + listed + every event returned by search and counted
-    by stats; gone = no directory, not listed, not in the in-memory metadata, nothing returned, not in an empty-PQ meta"""
-    alive = s["files"] and s["listed"] and s["found"] == s["of"] and s["count"] == s["of"]
-    gone = (not s["files"]) and (not s["listed"]) and (not s["mem"]) and s["found"] == 0 and s["count"] == 0 and not s["pq"]
+    """(alive, gone) of one observed segment (or group of m segments with identical time range): alive = every member has its
+    directory, is listed, is in all three in-memory structures incl. the time-filtered selection a query starts from, every
+    event is returned by search and counted by stats; gone = no member has a directory, is listed, is in any in-memory
+    structure / selected for search, nothing returned, not in an empty-PQ meta"""
+    alive = s["members_alive"] == s["m"] and s["count"] == s["of"]
+    gone = s["members_gone"] == s["m"] and s["count"] == 0
     return alive, gone
 
 
 def obs_key(o):
-    return json.dumps({"segs": {str(i): [s["files"], s["listed"], s["mem"], s["found"], s["count"], s["pq"]] for i, s in o["segs"].items()},
+    return json.dumps({"segs": {str(i): [s["files"], s["listed"], s["mem"], s["rev"], s["picked"], s["found"], s["count"], s["pq"],
+                                         s["members_alive"], s["members_gone"]] for i, s in o["segs"].items()},
                        "open": [o["open_found"], o["open_count"]]}, sort_keys=True)
 
 
@@ -687,6 +744,16 @@ def judge(beh, res, ref_final):
         state[i] = "alive" if alive else "gone" if gone else "mixed"
         if alive or gone:
             continue
+        grp = "" if s["m"] == 1 else " [group of %d segments with identical time range: %d alive, %d gone; per structure %s]" % (
+            s["m"], s["members_alive"], s["members_gone"], s.get("n"))
+        if s["m"] > 1 and s["members_alive"] + s["members_gone"] == s["m"]:
+            # every member is cleanly alive or cleanly gone, but not all the same: judged below (which had to go / stay)
+            state[i] = "split"
+            if kind != "time":
+                out.append(("C14:%s:tied-%s-segments-partly-deleted%s" % (pn, kn, suffix),
+                            "segment group %d: %d of %d segments with identical time range deleted, the others kept%s" % (
+                                i, s["members_gone"], s["m"], grp)))
+            continue
         data_gone = (not s["files"]) or s["found"] == 0
         meta = "segmeta.json" if k == "log" else "metricmeta.json"
         if s["listed"] and not s["files"]:
@@ -705,7 +772,20 @@ def judge(beh, res, ref_final):
         elif (not s["listed"]) and (not s["files"]) and s["mem"]:
             out.append(("C14:%s:deleted-%s-segment-still-in-memory-metadata%s" % (pn, kn, suffix),
                         "segment %d (%s): directory and %s entry are gone but the in-memory segment metadata (what queries walk) "
-                        "still holds its key" % (i, kn, meta)))
+                        "still holds its key%s" % (i, kn, meta, grp)))
+        elif (not s["listed"]) and (not s["files"]) and s["picked"]:
+            out.append(("C14:%s:deleted-%s-segment-still-selected-for-search%s" % (pn, kn, suffix),
+                        "segment %d (%s): directory and %s entry are gone, but the time-filtered segment selection every query starts "
+                        "from (FilterSegmentsByTime over the per-table list) still returns its key%s%s" % (
+                            i, kn, meta, grp, ("; query errors: %s" % str(o.get("search_errors_field"))[:200]) if o.get("search_errors_field") else "")))
+        elif (not s["listed"]) and (not s["files"]) and s["rev"]:
+            out.append(("C14:%s:deleted-%s-segment-still-in-reverse-index%s" % (pn, kn, suffix),
+                        "segment %d (%s): directory and %s entry are gone but GetMicroIndex still resolves its key%s" % (i, kn, meta, grp)))
+        elif s["listed"] and s["files"] and s["found"] == s["of"] and s["count"] == s["of"] and s["m"] == s.get("n", {}).get("files", 1) \
+                and s["m"] == s.get("n", {}).get("listed", 1):
+            missing = [k2 for k2 in ("mem", "rev", "picked") if s.get("n", {}).get(k2, s["m"]) != s["m"]]
+            out.append(("C14:%s:surviving-%s-segment-missing-from-in-memory-metadata%s" % (pn, kn, suffix),
+                        "segment %d (%s) is on disk and listed but missing from %s%s" % (i, kn, missing, grp)))
         elif s["pq"] and data_gone:
             out.append(("C14:%s:empty-pq-meta-lists-deleted-segment%s" % (pn, suffix),
                         "segment %d is deleted (directory, segmeta.json, search) but an empty-PQ meta file still lists its key" % i))
@@ -727,11 +807,11 @@ def judge(beh, res, ref_final):
         for i in sorted(state):
             hi = segs[i - 1]["hi"]
             kn = "log" if segs[i - 1]["kind"] == "log" else "metrics"
-            if hi < 0 and state[i] == "alive":
+            if hi < 0 and state[i] in ("alive", "split"):
                 out.append(("C14:time-pass:expired-%s-segment-not-deleted%s" % (kn, suffix),
                             "segment %d (%s) newest event is older than the horizon but it survived (class lo=%d hi=%d)" % (
                                 i, kn, segs[i - 1]["lo"], hi)))
-            if hi > 0 and state[i] == "gone":
+            if hi > 0 and state[i] in ("gone", "split"):
                 out.append(("C14:time-pass:%s-segment-with-newer-event-deleted%s" % (kn, suffix),
                             "segment %d (%s) contains an event newer than the horizon but was deleted (class lo=%d hi=%d)" % (
                                 i, kn, segs[i - 1]["lo"], hi)))
@@ -795,10 +875,13 @@ def model_mismatch(beh, res):
     for i, s in sorted(res["final"]["segs"].items()):
         k = beh["segs"][i - 1]["kind"]
         exp = {"files": i in f["files"], "listed": i in (f["smeta"] if k == "log" else f["mmeta"]), "pq": i in f["pq"]}
+        if k == "log":
+            exp["picked"] = i in f.get("sorted", f["mem"])
+            exp["mem"] = i in f["mem"]
         exp_search = i in f["mem"] and i in f["files"]
         got_search = s["found"] == s["of"]
-        for fld in ("files", "listed", "pq"):
-            if s[fld] != exp[fld]:
+        for fld in ("files", "listed", "pq", "picked", "mem"):
+            if fld in exp and s[fld] != exp[fld]:
                 diffs.append("seg %d %s: real %s, spec %s" % (i, fld, s[fld], exp[fld]))
         if got_search != exp_search:
             diffs.append("seg %d searchable: real %s (%d/%d), spec %s" % (i, got_search, s["found"], s["of"], exp_search))
@@ -905,12 +988,27 @@ def replay_all(chk, quick, rnd, binary, mount_ok, behs):
         his = [s["hi"] for s in b["segs"]]
         return min(his) < 0 < max(his)
 
+    def mult(b):
+        return max(s.get("m", 1) for s in b["segs"])
+
+    def tied_victims(b):   # a group of segments with identical time range that has to be deleted in one batch
+        return any(s.get("m", 1) > 1 and s["hi"] < 0 for s in b["segs"])
+
     plan = []
-    g_time = group(behs["time"])
+    g_all = group(behs["time"])
+    g_time = {k: v for k, v in g_all.items() if mult(v[0]) == 1}
     g_nomet = {k: v for k, v in g_time.items() if not has_met(v[0]) and interesting_time(v[0])}
     g_met = {k: v for k, v in g_time.items() if has_met(v[0]) and interesting_time(v[0])}
     g_rest = {k: v for k, v in g_time.items() if not interesting_time(v[0])}
-    plan += pick(g_nomet, rnd, 8 if quick else 80, 2 if quick else None)
+    # ties: m segments of one index ending (and starting) on the same millisecond, as victims (next to survivors that share
+    # their earliest time / next to other expired segments) and as survivors
+    g_tie_v = {k: v for k, v in g_all.items() if mult(v[0]) > 1 and tied_victims(v[0]) and not has_met(v[0])}
+    g_tie_vm = {k: v for k, v in g_all.items() if mult(v[0]) > 1 and tied_victims(v[0]) and has_met(v[0])}
+    g_tie_s = {k: v for k, v in g_all.items() if mult(v[0]) > 1 and not tied_victims(v[0]) and not has_met(v[0]) and interesting_time(v[0])}
+    plan += pick(g_tie_v, rnd, 3 if quick else 20, 1 if quick else 3, prefer=lambda b: len(b["segs"]) > 1)
+    plan += pick(g_tie_vm, rnd, 0 if quick else 4, 1)
+    plan += pick(g_tie_s, rnd, 1 if quick else 6, 1)
+    plan += pick(g_nomet, rnd, 7 if quick else 80, 2 if quick else None)
     plan += pick(g_met, rnd, 4 if quick else 24, 1 if quick else None)
     plan += pick(g_rest, rnd, 2 if quick else 10, 1)
     g_pq = {k: v for k, v in group(behs["pq"]).items() if v[0]["pq0"]}
@@ -934,7 +1032,7 @@ def replay_all(chk, quick, rnd, binary, mount_ok, behs):
         return chk.seed * 100003 + (hash_str(sid) % 100000)
 
     def order(ts):   # long scenarios first
-        return sorted(ts, key=lambda t: (0 if t[1].get("pq_scenario") else 1 if has_met(t[1]) else 2))
+        return sorted(ts, key=lambda t: (0 if t[1].get("pq_scenario") else 1 if has_met(t[1]) else 2 if mult(t[1]) > 1 else 3))
 
     def work(t):
         sid, b, seed, victims = t
